@@ -104,3 +104,8 @@ package channelmonitor
 //@   acquires {C20} graphsync.Transport.dtChannelsLk, graphsync.dtChannel.lk, tracing.SpansIndex.spansLk
 //@ extern func (channelmonitor.monitorAPI).SubscribeToEvents
 //@   acquires {C20} nothing
+
+//@ func (*channelmonitor.Monitor).onShutdown {C20}
+//@   loop 0 invariant [all-channels] true
+//@ func (*channelmonitor.monitoredChannel).isRestarting {C14,C20}
+//@ func (*channelmonitor.monitoredChannel).start {C20}
